@@ -1,4 +1,5 @@
 import Pog.Lemmas.Surface
+import Pog.Props.ClientGen
 import Pog.Lemmas.SurfaceGroup
 import Pog.Lemmas.SurfaceModule
 /-
@@ -27,6 +28,13 @@ import Pog.Lemmas.SurfaceModule
       mocks          : ✗ grouped by FIRST tag, RAW string: surfaces and MockAPIClient properties differ
                        (multi-tag operations; `Users`/`users`; the empty tag)                    (partial)
 -/
+/-
+  C13 for the three top-level classes (Pog/Model/ClientGen.lean; claimed from Pog/Props/ClientGen.lean):
+    surfaces_agree                         from the same tag tuples, APIClient / APIClientProtocol / MockAPIClient have the same property names in
+                                           the same order, `C` vs `CProtocol` return types, one `__init__` keyword per property
+    ✗ mock_surface_counterexample (F23)    the mocks emitter passes ITS OWN tuples (first tag only, raw): second tags have no property, order differs
+-/
+-- INDEX Pog.ClientGenProps: surfaces_agree, mock_surface_counterexample, mock_surface_empty_tag_counterexample, mock_surface_partial, mock_duplicate_argument_counterexample, mock_self_argument_counterexample
 namespace Pog.C13
 open Pog
 
